@@ -99,7 +99,10 @@ def run_meta(ctx, variants_fn, n_valid, n_mut, what, rule, trusted, k=4):
     for i in range(n_valid * scale):
         add(S.gen_valid(rng, threads=(i % 2 == 1)), "valid")
     for i in range(n_mut * scale):
-        s, name, owner, desc = M.mutate(rng, threads=(i % 2 == 1))
+        # every sixth mutant is one whose detection could depend on order or spelling
+        only = ("duplicate_composite", "duplicate_milestone", "duplicate_attribute", "identical_operands") if i % 6 == 0 else None
+        only = tuple(m for m in (only or ()) if m in M.MUTATORS) or None
+        s, name, owner, desc = M.mutate(rng, only=only, threads=(i % 2 == 1))
         add(s, "mutant", name, owner, desc)
     evaluated = engine.run_items(ctx, items)
     if variants_fn is variants_c14:
@@ -136,6 +139,25 @@ def run_meta(ctx, variants_fn, n_valid, n_mut, what, rule, trusted, k=4):
         for it in iitems:
             it.scenario = {"native": it.scenario["native"], "imports": [{kk: vv for kk, vv in imp.items() if kk != "builder"} for imp in it.scenario["imports"]]}
         items = items + pitems + iitems
+    if variants_fn is variants_c15:
+        # reference spelling inside pipelines (sources, traversal refs, filter operands, the written promise)
+        import pipes
+        pitems = []
+
+        def addp15(s, kind, name=None, owner=None, desc=None):
+            g = "p" + engine.scen_hash(s)
+            for v, sp in enumerate(("id", "alias", "mixed", "mixed")):
+                r = {"spelling": sp, "shuffle": False, "descriptive": False, "seed": rng.randrange(1 << 30), "numeric_names": "odd" if v == 3 else False}
+                pitems.append(engine.Item(s, S.render(s, random.Random(r["seed"]), sp, False, False, r["numeric_names"]), kind, mutator=name, owner=owner, desc=desc, render=r, group=g))
+        for i in range(max(1, n_valid // 2) * scale):
+            addp15(pipes.gen_valid_p(rng, threads=(i % 2 == 1), n_pipes=rng.choice([1, 2, 2]))[0], "valid-pipelines")
+        for i in range(max(1, n_mut // 2) * scale):
+            only = ("p_read_own_object", "p_filter_reads_own_object", "p_checkpoint_compares_written", "p_write_settable_attribute") if i % 3 == 0 else ("C08", "C09")
+            s, name, owner, desc = pipes.mutate_p(rng, only=only, threads=(i % 2 == 1))
+            if name not in M.FORCE_ID_SPELLING:
+                addp15(s, "mutant-pipelines", name, owner, desc)
+        evaluated = engine.run_items_grouped(ctx, pitems, coq_file_fn=pipes.coq_cases_file_p) and evaluated
+        items = items + pitems
     # metamorphic relation on the implementation alone
     by = collections.defaultdict(list)
     for it in items:
